@@ -151,14 +151,20 @@ fn preprocess_inner<T: AsRef<Path>, U: AsRef<Path>, V: BuildHasher>(
     include_depth: usize,
 ) -> Result<(PreprocessedText, Defines), Error> {
 
-    let f = File::open(path.as_ref()).map_err(|x| Error::File {
-        source: x,
-        path: PathBuf::from(path.as_ref()),
-    })?;
-    let mut reader = BufReader::new(f);
+    // The file is closed before its text is preprocessed: an `include nests this function, and a
+    // descriptor held at every level makes deep chains fail with EMFILE when several threads (or a
+    // low limit) are at work.
     let mut s = String::new();
+    let read = {
+        let f = File::open(path.as_ref()).map_err(|x| Error::File {
+            source: x,
+            path: PathBuf::from(path.as_ref()),
+        })?;
+        let mut reader = BufReader::new(f);
+        reader.read_to_string(&mut s)
+    };
 
-    if let Err(_) = reader.read_to_string(&mut s) {
+    if let Err(_) = read {
         Err(Error::ReadUtf8(PathBuf::from(path.as_ref())))
     } else {
         preprocess_str(
